@@ -66,7 +66,10 @@ impl<'a> std::fmt::Display for BasicType {
 
 impl<'a> From<&'a str> for BasicType {
     fn from(v: &'a str) -> Self {
-        match v.trim() {
+        // Two-word primitives ("unsigned  int") may be separated by any run of
+        // whitespace: collapse it before matching.
+        let v = v.split_whitespace().collect::<Vec<_>>().join(" ");
+        match v.as_str() {
             "unsigned int" | "uint32_t" | "u32" | "unsigned" => Self::U32,
             "int" | "int32_t" | "i32" => Self::I32,
             "unsigned hyper" | "uint64_t" | "u64" => Self::U64,
@@ -83,7 +86,8 @@ impl<'a> From<&'a str> for BasicType {
 
 impl<'a> From<String> for BasicType {
     fn from(v: String) -> Self {
-        match v.trim() {
+        let v = v.split_whitespace().collect::<Vec<_>>().join(" ");
+        match v.as_str() {
             "unsigned int" | "uint32_t" | "u32" => Self::U32,
             "int" | "int32_t" | "i32" => Self::I32,
             "unsigned hyper" | "uint64_t" | "u64" => Self::U64,
